@@ -37,6 +37,40 @@ CHECKS = {
              'Scalars include the 33 values below every power-of-two width, multiples of r, lambda, multiples of |x|^i +-1. Held on N events.',
         note='Trusted: Python big-int arithmetic, oracle/bls.py curve code. decompose_lambda is static: observed only through results until hook H1 is added.',
         ref='DESIGN.md section 3 C06'),
+    'C01': dict(
+        technique='definition-level pairing oracle (Miller function over Fq12 + integer final exponent) and discrete-log bookkeeping over recorded (a,b,P,Q,e) events; differential across builds; ASan/UBSan',
+        text='P=[a]G1 and Q=[b]G2 are produced by the library itself (four multiplication routes, real projective->affine conversion) or by the model, paired through the C API, '
+             'the C++ template and the prepared form; every output must equal E0^(ab mod r) coefficient for coefficient, where E0 is the model\'s own definitional pairing of the '
+             'published generators; points of unknown discrete log (hashed identity x sampled G2) are judged by the definitional pairing directly; e=1 iff ab=0; exported generator '
+             'constants equal E0. An absolute-value oracle, so bilinear-but-different functions fail. Held on N events.',
+        note='Trusted: Python big-int arithmetic, oracle/bls.py (bilinearity, order r and agreement of flattened/tower arithmetic self-tested each run).',
+        ref='DESIGN.md section 3 C01'),
+    'C07': dict(
+        technique='reference-model monitor over GT events with known logs (a=E0^t), replay of the specified rejection sampler on the recorded RNG byte stream; differential; ASan/UBSan',
+        text='gt_multiply / exponentiate_gt_nodiv / _div / digit entry point / gt_add / gt_double / gt_negate are compared with powers of the model\'s E0; the random-exponent routines '
+             'run on scripted byte streams that force digit rejections and the 2^-127 outer rejection, and the returned y must be exactly what the specified sampler yields, with result = base^y.',
+        note='Trusted: Python big-int arithmetic, oracle/bls.py. Uniformity follows structurally from the replayed sampler, it is not tested statistically.',
+        ref='DESIGN.md section 3 C07'),
+    'C08': dict(
+        technique='reference-model monitor over pairing_sum/prepared_pairing events; exhaustive list shapes up to length 4 (quick) / 5 (thorough); private cursor observed through the C mirror struct; ASan/UBSan',
+        text='All list shapes over {affine, prepared} x {normal, P=O, Q=O} up to the bound, the empty list, longer random lists and reuse of the same pair arrays are executed; the result '
+             'must equal E0^(sum a_i b_i) and every prepared pair must have consumed exactly 68 (or 0) coefficients.',
+        note='Trusted: Python big-int arithmetic, oracle/bls.py. Values inside a shape are sampled.',
+        ref='DESIGN.md section 3 C08'),
+    'C09': dict(
+        technique='independent validity specification over recorded decode events: every valid encoding plus its hostile mutation family and random strings; accepted strings must re-encode to themselves; ASan/UBSan',
+        text='marshal output is judged byte by byte (flags, canonical big-endian coordinates, c1 before c0); decode is fed each valid encoding, its mutation family (form flags, infinity '
+             'with payload, flipped greater flag, perturbed coordinates, field+q, flag bits in later fields, abscissas outside the subgroup) and random strings; the model decides validity '
+             'independently (reduced coordinates, curve equation, [r]P=O) and acceptance must coincide; non-validating decode must agree on valid strings.',
+        note='Trusted: Python big-int arithmetic, oracle/bls.py. Which root carries the greater flag is not asserted (see known finding C02 compare).',
+        ref='DESIGN.md section 3 C09'),
+    'C10': dict(
+        technique='reference-model monitor over hash/sampler outputs with the RNG callback as recording and injection point (scripted rejections); differential across builds for platform independence; ASan/UBSan',
+        text='zp_from_hash = (h mod 2^255) mod r; from_hash results lie on the curve at the FIRST admissible abscissa (inputs searched to need 0..8 increments, c0 wrap-around, flag bits, '
+             'values >= q); identity = cofactor multiple in G1; every sampler is replayed on the exact byte stream (field rejections, non-residue abscissas) and its result must be the '
+             'cofactor multiple of the first admissible point, in the subgroup, non-identity; outputs byte-identical on prod/ASan/portable builds.',
+        note='Trusted: Python big-int arithmetic, oracle/bls.py. Choice between the two roots y is checked only for determinism/build-independence.',
+        ref='DESIGN.md section 3 C10'),
 }
 
 NOT_YET = 'check not built yet in this round (planned, see DESIGN.md section 3)'
